@@ -136,6 +136,7 @@ type Proc struct {
 	events     []trace.Event
 	refParams  map[string]bool
 	locals     map[string]tla.Value
+	partial    map[string][]interface{}
 	localOrder []string
 
 	tx map[string]tla.Value // snapshot of the State taken at this proc's first access in the attempt in flight
@@ -175,7 +176,7 @@ func (sys *System) AddProc(name string, self tla.Value, arch distsys.MPCalArchet
 	}
 	p := &Proc{Name: name, Self: self, sys: sys,
 		arrive: make(chan string), release: make(chan gateCmd), done: make(chan runResult, 1),
-		refParams: map[string]bool{}, locals: map[string]tla.Value{}}
+		refParams: map[string]bool{}, locals: map[string]tla.Value{}, partial: map[string][]interface{}{}}
 	cfg := []distsys.MPCalContextConfigFn{
 		distsys.SetFairnessCounter(&gate{p}),
 		distsys.SetTraceRecorder(&recorder{p}),
@@ -433,6 +434,7 @@ func (p *Proc) applyCommitted(ev trace.Event) {
 			}
 			if _, known := p.locals[n]; !known {
 				p.setLocal(n, e.Value.StripVClock())
+				delete(p.partial, n)
 			}
 		case trace.WriteElement:
 			n := elemName(e.Prefix, e.Name)
@@ -442,10 +444,15 @@ func (p *Proc) applyCommitted(ev trace.Event) {
 			written[n] = true
 			if len(e.Indices) == 0 {
 				p.setLocal(n, e.Value.StripVClock())
+				delete(p.partial, n)
 			} else if cur, known := p.locals[n]; known {
 				val := e.Value.StripVClock()
 				p.setLocal(n, tla.FunctionSubstitution(cur, []tla.FunctionSubstitutionRecord{{
 					Keys: e.Indices, Value: func(tla.Value) tla.Value { return val }}}))
+			} else {
+				// indexed write to a local whose whole value has not been seen yet (it still has the initial
+				// value its PreAmble gave it, plus earlier indexed writes): remember the override
+				p.partial[n] = append(p.partial[n], []interface{}{encIdx(e.Indices), Enc(e.Value)})
 			}
 		}
 	}
@@ -484,6 +491,10 @@ func (p *Proc) encLocals() map[string]interface{} {
 	out := map[string]interface{}{}
 	for n, v := range p.locals {
 		out[n] = Enc(v)
+	}
+	for n, ov := range p.partial {
+		// {"partial": [[indices, value], ...]}: the local's initial value with these indexed writes applied in order
+		out[n] = map[string]interface{}{"partial": ov}
 	}
 	return out
 }
